@@ -81,6 +81,10 @@ theorem manager_guards :
     guardsOf "Manager.GetRoundRobinItem" = ["if:len(m.items)==0", "if:item.Len()>0", "if:m.roundRobinIndex==start"] ∧
     guardsOf "Manager.GetMaxLenItem" = ["if:len(m.items)==0", "if:maxItem.Len()==0"] ∧
     guardsOf "Manager.GetMinLenItem" = ["if:len(m.items)==0", "if:l>0&&(minLen==-1||l<minLen)", "if:minLen==-1"] := by decide
+/-- `Manager.UnregisterItem` (model `Manager.unregister`): pointer-equality test, cursor reset when it is at or past the slot. -/
+theorem manager_unregister_guards :
+    guardsOf "Manager.UnregisterItem" = ["if:itemToRemovePtr==itemValuePtr", "if:m.roundRobinIndex>=i"] ∧
+    skeletonOf "Manager.UnregisterItem" = ["mutex:m.mx:Lock", "mutex:m.mx:Unlock"] := by decide
 theorem pq_guards :
     guardsOf "PriorityQueue.Enqueue" = ["if:q.closed.Load()", "if:!ok"] ∧ guardsOf "PriorityQueue.Dequeue" = ["if:q.internal.Len()==0"] := by decide
 
